@@ -5,7 +5,7 @@ always-failing parser test) and the demonstration fails; without it the demonstr
 usage: confirm_seed.py <case-dir> <seed-id>   (demo_cmd taken from meta.json, worktree paths rewritten to /tmp/mrepo)
 On success copies the case to /verif/seeded/<seed-id>/ and records what was run."""
 import json, subprocess, sys, os, shutil, re
-SCR="/tmp/mrepo"; ENV="export GOFLAGS=-mod=mod GOPROXY=off; "
+SCR=os.environ.get("CONFIRM_SCR","/tmp/mrepo"); ENV="export GOFLAGS=-mod=mod GOPROXY=off WT=%s; " % SCR
 def sh(cmd, t=900):
     try:
         r=subprocess.run(ENV+cmd, shell=True, capture_output=True, text=True, timeout=t)
@@ -17,7 +17,7 @@ def reset():
     sh("git -C %s checkout -q --detach $(git -C /repo rev-parse %s); git -C %s checkout -q -- .; git -C %s clean -fdq" % (SCR,base,SCR,SCR))
 case, sid = sys.argv[1], sys.argv[2]
 meta=json.load(open(case+"/meta.json"))
-demo=re.sub(r"/tmp/seed/wt_C\d+", SCR, meta["demo_cmd"])
+demo=re.sub(r"/tmp/seed/wt_[A-Za-z0-9]+", SCR, meta["demo_cmd"])
 demo=re.sub(r"\s*\((remove|also works)[^)]*\)\s*", " ", demo)
 demo=demo.split("   (")[0]
 reset()
@@ -36,7 +36,7 @@ if script:
 elif shscript:
     # demo.sh scripts reference their own worktree/binary: rewrite to the scratch worktree
     txt=open(case+"/demo/demo.sh").read()
-    txt=re.sub(r"/tmp/seed/wt_C\d+", SCR, txt)
+    txt=re.sub(r"/tmp/seed/wt_[A-Za-z0-9]+", SCR, txt)
     open(case+"/demo/_confirm.sh","w").write(txt)
     demo = "cd %s/demo && bash ./_confirm.sh; rc=$?; exit $rc" % case
 rc1,out1=sh(demo, 600)
